@@ -160,9 +160,9 @@ theorem update_body_documented :
       ">>shifted_x=row['x']+row['shift_x']",
       ">>shifted_y=row['y']+row['shift_y']",
       ">>shifted_z=row['z']+row['shift_z']",
-      ">>new_row['x']=float(decimal.Decimal(shifted_x).to_integral_value(rounding=decimal.ROUND_HALF_UP))",
-      ">>new_row['y']=float(decimal.Decimal(shifted_y).to_integral_value(rounding=decimal.ROUND_HALF_UP))",
-      ">>new_row['z']=float(decimal.Decimal(shifted_z).to_integral_value(rounding=decimal.ROUND_HALF_UP))",
+      ">>new_row['x']=float(decimal.Decimal(float(shifted_x)).to_integral_value(rounding=decimal.ROUND_HALF_UP))",
+      ">>new_row['y']=float(decimal.Decimal(float(shifted_y)).to_integral_value(rounding=decimal.ROUND_HALF_UP))",
+      ">>new_row['z']=float(decimal.Decimal(float(shifted_z)).to_integral_value(rounding=decimal.ROUND_HALF_UP))",
       ">>new_row['shift_x']=shifted_x-new_row['x']",
       ">>new_row['shift_y']=shifted_y-new_row['y']",
       ">>new_row['shift_z']=shifted_z-new_row['z']",
